@@ -49,7 +49,7 @@ def audit(prop, theorems, module):
     with open(p, 'w') as f:
         f.write('From PW Require Import %s.\n' % module)
         for t in theorems:
-            f.write('Check %s.\nPrint Assumptions %s.\n' % (t, t))
+            f.write('Print Assumptions %s.\n' % t)
     rc, out = vlib.coqc_file(p, 600)
     res = {}
     if rc != 0:
@@ -188,7 +188,10 @@ def main():
         for job in safe_jobs():
             name, module, runner, cases = job['name'], job['module'], job['runner'], job['cases']
             try:
-                bad, errs, nfiles = vlib.run_cases('%s_%s' % (prop, name), module, runner, cases)
+                if job.get('float'):
+                    bad, errs, nfiles = vlib.run_fcases('%s_%s' % (prop, name), cases)
+                else:
+                    bad, errs, nfiles = vlib.run_cases('%s_%s' % (prop, name), module, runner, cases)
             except Exception as e:
                 bad, errs, nfiles = [], [('harness', '%s: %s' % (type(e).__name__, e))], 0
             cov['obligations'] += 1
@@ -200,19 +203,22 @@ def main():
             if cases:
                 c0 = cases[len(cases) // 2]
                 cov['samples'].append({'correspondence': name, 'config': c0.meta, 'entry': c0.entry,
-                                       'filters': [[int(v) for v in f] for f in c0.filts][:4]})
+                                       'filters': [[(float(v) if job.get('float') else int(v)) for v in f] for f in c0.filts][:4]})
             dist = {}
             for c in cases:
                 k = str(c.meta.get('fn', '')) + '/' + str(c.meta.get('mode', ''))
                 dist[k] = dist.get(k, 0) + 1
             nerr = sum(1 for c in cases if isinstance(c.exp, tuple) and len(c.exp) == 2 and isinstance(c.exp[0], str))
+            if job.get('float'):
+                dist['tolerance_check'] = len(cases)
             corr_stats.append(dict(name=name, against=job.get('against'), cases=len(cases), files=nfiles, disagreements=len(bad),
                                    error_cases=nerr, distribution=dist))
             if errs:
                 broken.append(('corr:' + name, 'coqc failed on a case file: ' + errs[0][1][-400:]))
             elif bad:
                 broken.append(('corr:' + name, '%d of %d cases disagree, first: %s' % (len(bad), len(cases), cases[bad[0]].meta)))
-                corr_fail_cases.append((job, [cases[b] for b in bad[:5]]))
+                if not job.get('float'):
+                    corr_fail_cases.append((job, [cases[b] for b in bad[:5]]))
             else:
                 cov['discharged'] += 1
 
